@@ -90,6 +90,7 @@ func checkC05(p *Prog, r *Report) {
 	}
 	r.Stat("getter fields nil by construction", nGetters)
 	r.Stat("custom JSON decoders added to the inbound tree", w.Decoders)
+	r.Stat("API entry points receiving an inbound message back from the application", w.MsgRoots)
 	r.Floor("R1", "getter fields that are nil by construction", nGetters, 1)
 	nf := 0
 	tf := 0
@@ -134,6 +135,7 @@ func checkC05(p *Prog, r *Report) {
 		r.Pass("R2", "inbound-tree", "", "all constant indexes into wire-derived lists are length-guarded")
 		r.Pass("R3", "inbound-tree", "", fmt.Sprintf("no reachable explicit panic or unchecked assertion (%d exemptions backed by table rules)", len(w.Exempt)))
 	}
+	c05KeepNodeManagement(p, w, r)
 	for _, e := range uniqStrings(w.Exempt) {
 		r.Info("exempt: %s", e)
 	}
@@ -296,4 +298,95 @@ func checkC05(p *Prog, r *Report) {
 	}
 	r.Assumes("taint is context-insensitive except that callee entry facts are intersected over wire-carrying call sites only",
 		"the SHIP writer and application callbacks do not block or panic", "state-derived nil (e.g. an address not yet announced) is outside the wire-taint and not decided here")
+}
+
+// c05KeepNodeManagement: every message of a peer is resolved through the remote
+// NodeManagement feature (device information entity, feature 0). Inbound
+// discovery data must not be able to remove it, or the peer's next valid
+// discovery read is rejected ("the stack still answers a valid detailed-discovery
+// read from that peer").
+func c05KeepNodeManagement(p *Prog, w *WireNil, r *Report) {
+	r.Rule("R7", "inbound discovery data cannot remove the remote NodeManagement feature: in the inbound call tree every removal of a remote entity is guarded by a test that the address is not the device-information entity, and every function that wipes the features of a remote entity re-creates the NodeManagement feature afterwards")
+	eri := p.LookupIface("api", "EntityRemoteInterface")
+	dri := p.LookupIface("api", "DeviceRemoteInterface")
+	if eri == nil || dri == nil {
+		r.Undecided("R7", "anchor:api interfaces", "", "interface not found")
+		return
+	}
+	isDevInfo := func(v ssa.Value) bool {
+		pth := Path(v)
+		return strings.Contains(pth, "DeviceInformationAddressEntity") || strings.Contains(pth, "DeviceInformationEntityId")
+	}
+	nRem, nWipe := 0, 0
+	var fns []*ssa.Function
+	for f := range w.reach {
+		fns = append(fns, f)
+	}
+	sort.Slice(fns, func(i, j int) bool { return fns[i].String() < fns[j].String() })
+	seen := map[string]bool{}
+	for _, fn := range fns {
+		forEachCall(fn, func(site ssa.CallInstruction) {
+			c, ok := site.(*ssa.Call)
+			if !ok {
+				return
+			}
+			switch {
+			case calleeIsIfaceMethod(&c.Call, dri, "RemoveEntityByAddress"):
+				key := FnName(originOf(fn)) + "|removal"
+				if seen[key] {
+					return
+				}
+				seen[key] = true
+				nRem++
+				addr := Path(callArgs(&c.Call)[0])
+				guarded := false
+				for _, g := range Guards(c.Block()) {
+					gc, ok := g.Cond.(*ssa.Call)
+					if !ok || g.Val {
+						continue
+					}
+					callee := gc.Call.StaticCallee()
+					if callee == nil || !((fnPkgPath(callee) == "reflect" && callee.Name() == "DeepEqual") || (fnPkgPath(callee) == "slices" && originName(callee) == "Equal")) {
+						continue
+					}
+					a0, a1 := gc.Call.Args[0], gc.Call.Args[1]
+					if (Path(a0) == addr && isDevInfo(a1)) || (Path(a1) == addr && isDevInfo(a0)) {
+						guarded = true
+					}
+				}
+				r.Check("R7", key, guarded, p.InstrPos(c), "removal of the entity at "+addr+" is reached only if that address is not the device-information entity: "+fmt.Sprint(guarded))
+			case calleeIsIfaceMethod(&c.Call, eri, "RemoveAllFeatures"):
+				key := FnName(originOf(fn)) + "|feature-wipe"
+				if seen[key] {
+					return
+				}
+				seen[key] = true
+				nWipe++
+				recv := callRecv(&c.Call)
+				restored := false
+				forEachCall(fn, func(s2 ssa.CallInstruction) {
+					a, ok := s2.(*ssa.Call)
+					if !ok || !calleeIsIfaceMethod(&a.Call, eri, "AddFeature") || callRecv(&a.Call) != recv {
+						return
+					}
+					if !(blockReaches(c.Block(), a.Block()) || c.Block() == a.Block()) {
+						return
+					}
+					// the added feature is built with the constant type NodeManagement
+					for _, src := range p.Sources(callArgs(&a.Call)[0], false) {
+						if nc, ok := src.Val.(*ssa.Call); ok {
+							for _, arg := range nc.Call.Args {
+								if s, isS := constString(arg); isS && s == "NodeManagement" {
+									restored = true
+								}
+							}
+						}
+					}
+				})
+				r.Check("R7", key, restored, p.InstrPos(c), "after the wipe a feature of the constant type NodeManagement is added to the same entity again (for the device-information entity, when the announcement omits it): "+fmt.Sprint(restored))
+			}
+		})
+	}
+	r.Floor("R7", "removals of remote entities in the inbound tree", nRem, 1)
+	r.Floor("R7", "feature wipes in the inbound tree", nWipe, 1)
 }
